@@ -2,6 +2,7 @@ package rules
 
 import (
 	"fmt"
+	"go/constant"
 	"go/token"
 	"go/types"
 	"strings"
@@ -313,12 +314,89 @@ func resolveFuncValue(v ssa.Value) *ssa.Function {
 }
 
 func runReuse(r *core.Run) {
-	for _, tc := range []struct{ fn, scanner string }{{"IsIdent", "consumeIdentToken"}, {"IsURLUnquoted", "consumeUnquotedURL"}} {
+	// the lexer's own scanners: the methods of css.Lexer that Next can reach
+	own := map[*ssa.Function]bool{}
+	if nx := r.Prog.SSAFunc("css", "Lexer", "Next"); nx != nil {
+		var walk func(f *ssa.Function, d int)
+		walk = func(f *ssa.Function, d int) {
+			if f == nil || own[f] || d > 8 {
+				return
+			}
+			own[f] = true
+			for _, b := range f.Blocks {
+				for _, in := range b.Instrs {
+					switch x := in.(type) {
+					case *ssa.Call:
+						if g := x.Call.StaticCallee(); g != nil && core.RelPkg(fnPkg(g)) == "css" {
+							walk(g, d+1)
+						}
+						for _, a := range x.Call.Args {
+							if g := resolveFuncValue(a); g != nil && core.RelPkg(fnPkg(g)) == "css" {
+								walk(g, d+1)
+							}
+						}
+					case *ssa.MakeClosure:
+						if g, ok := x.Fn.(*ssa.Function); ok {
+							walk(g, d+1)
+						}
+					}
+				}
+			}
+		}
+		walk(nx, 0)
+	} else {
+		r.BrokenAnchor("css.Lexer.Next")
+		return
+	}
+	// the identifier scanner(s): the methods whose success is established where a function returns the constant IdentToken
+	identScanners := map[*ssa.Function]bool{}
+	identTok := int64(-1)
+	if pk := r.Prog.Pkg("css"); pk != nil {
+		if c, ok := constsOfType(pk, "TokenType")["IdentToken"]; ok {
+			identTok, _ = constant.Int64Val(constant.ToInt(c))
+		}
+	}
+	for f := range own {
+		for _, b := range f.Blocks {
+			ret, ok := lastInstr(b).(*ssa.Return)
+			if !ok || len(ret.Results) == 0 {
+				continue
+			}
+			k, isK := ret.Results[0].(*ssa.Const)
+			if !isK || !ssaIntConst(k) || k.Int64() != identTok {
+				continue
+			}
+			if _, named := ret.Results[0].Type().(*types.Named); !named {
+				continue
+			}
+			for v, truth := range boolKnown(b, nil) {
+				if c, isC := v.(*ssa.Call); isC && truth {
+					if g := c.Call.StaticCallee(); g != nil && recvName(g) == "Lexer" {
+						identScanners[g] = true
+					}
+				}
+			}
+		}
+	}
+	isScannerFor := func(fnName string, g *ssa.Function) bool {
+		if g == nil || recvName(g) != "Lexer" || core.RelPkg(fnPkg(g)) != "css" || !own[g] || g.Name() == "Next" {
+			return false
+		}
+		if len(identScanners) == 0 {
+			return true
+		}
+		if fnName == "IsIdent" {
+			return identScanners[g]
+		}
+		return !identScanners[g]
+	}
+	for _, tc := range []struct{ fn, scanner string }{{"IsIdent", "identifier scanner"}, {"IsURLUnquoted", "unquoted-url scanner"}} {
 		fn := r.Prog.SSAFunc("css", "", tc.fn)
 		if fn == nil {
 			r.BrokenAnchor("css." + tc.fn)
 			continue
 		}
+		isScanner := func(g *ssa.Function) bool { return isScannerFor(tc.fn, g) }
 		// the body that does the work: fn itself, or a helper that fn merely forwards to with the scanner as a function argument
 		body := fn
 		argParam := ssa.Value(fn.Params[0]) // the []byte argument as seen in `body`
@@ -331,7 +409,7 @@ func runReuse(r *core.Run) {
 						if a == ssa.Value(fn.Params[0]) {
 							bi = i
 						}
-						if g := resolveFuncValue(a); g != nil && g.Name() == tc.scanner && recvName(g) == "Lexer" {
+						if g := resolveFuncValue(a); isScanner(g) {
 							si = i
 						}
 					}
@@ -362,14 +440,14 @@ func runReuse(r *core.Run) {
 					newLexer = c
 				case f.Name() == "NewInputBytes":
 					input = c
-				case scanParam == nil && f.Name() == tc.scanner && recvName(f) == "Lexer":
+				case scanParam == nil && isScanner(f):
 					scan = c
 				}
 			}
 		}
 		ok := newLexer != nil && scan != nil && input != nil &&
 			input.Call.Args[0] == argParam && newLexer.Call.Args[0] == ssa.Value(input) && len(scan.Call.Args) > 0 && scan.Call.Args[0] == ssa.Value(newLexer)
-		r.Check(ok, "css."+tc.fn+" runs Lexer."+tc.scanner+" on a fresh lexer over the argument", fn.Pos(), "", "the helper no longer delegates to the lexer's own scanner "+tc.scanner+" on NewLexer(NewInputBytes(arg)): agreement with the lexer is no longer by construction")
+		r.Check(ok, "css."+tc.fn+" runs the lexer's own "+tc.scanner+" on a fresh lexer over the argument", fn.Pos(), "", "the helper no longer delegates to one of the scanner methods that Lexer.Next itself uses, on NewLexer(NewInputBytes(arg)): agreement with the lexer is no longer by construction")
 		// result: Pos() == len(b)
 		ret := singleReturn(body)
 		good := false
